@@ -133,62 +133,78 @@ def readU4 : Str → Option (Nat × Str)
 def charOfNat? (n : Nat) : Option Char :=
   if n < 0xD800 ∨ (0xDFFF < n ∧ n < 0x110000) then some (Char.ofNat n) else none
 
-/-- `py_scanstring` after the opening quote (strict mode: raw control characters are an error).
-    Returns the decoded string and the input after the closing quote. -/
-def readStrBody : Nat → Str → Option (Str × Str)
-  | 0, _ => none
-  | _ + 1, [] => none
-  | f + 1, c :: cs =>
-    if c = '"' then some ([], cs)
+/-- the one-character escapes of `BACKSLASH` (json/decoder.py:59-63). -/
+def simpleEsc (e : Char) : Option Char :=
+  if e = '"' then some '"' else if e = '\\' then some '\\' else if e = '/' then some '/'
+  else if e = 'b' then some (Char.ofNat 8) else if e = 'f' then some (Char.ofNat 12)
+  else if e = 'n' then some '\n' else if e = 'r' then some '\r' else if e = 't' then some '\t'
+  else none
+
+/-- one step of `py_scanstring`: the closing quote, one decoded character, or an error. -/
+inductive StrStep where
+  | close (rest : Str)
+  | char (c : Char) (rest : Str)
+  | bad
+
+/-- after `\u`: four hex digits; a high surrogate is joined with a following `\uDC00..\uDFFF`
+    (`0x10000 + (((uni - 0xd800) << 10) | (uni2 - 0xdc00))`, written arithmetically).  A lone surrogate
+    (Python keeps it as a lone surrogate code point) is outside the fragment: `bad`. -/
+def uStep (rest : Str) : StrStep :=
+  match readU4 rest with
+  | none => .bad
+  | some (n, rest1) =>
+    if 0xD800 ≤ n ∧ n ≤ 0xDBFF then
+      match rest1 with
+      | b :: u :: rest2 =>
+        if b = '\\' ∧ u = 'u' then
+          match readU4 rest2 with
+          | none => .bad
+          | some (m, rest3) =>
+            if 0xDC00 ≤ m ∧ m ≤ 0xDFFF then
+              match charOfNat? (0x10000 + (n - 0xD800) * 1024 + (m - 0xDC00)) with
+              | none => .bad
+              | some ch => .char ch rest3
+            else .bad
+        else .bad
+      | _ => .bad
+    else
+      match charOfNat? n with
+      | none => .bad
+      | some ch => .char ch rest1
+
+/-- strict mode: a raw control character is an error. -/
+def strStep : Str → StrStep
+  | [] => .bad
+  | c :: cs =>
+    if c = '"' then .close cs
     else if c = '\\' then
       match cs with
-      | [] => none
+      | [] => .bad
       | e :: rest =>
-        if e = 'u' then
-          match readU4 rest with
-          | none => none
-          | some (n, rest1) =>
-            if 0xD800 ≤ n ∧ n ≤ 0xDBFF then
-              -- high surrogate: joined with a following `\uDC00..\uDFFF`
-              -- (`0x10000 + (((uni - 0xd800) << 10) | (uni2 - 0xdc00))`, written arithmetically)
-              match rest1 with
-              | '\\' :: 'u' :: rest2 =>
-                match readU4 rest2 with
-                | none => none
-                | some (m, rest3) =>
-                  if 0xDC00 ≤ m ∧ m ≤ 0xDFFF then
-                    match charOfNat? (0x10000 + (n - 0xD800) * 1024 + (m - 0xDC00)) with
-                    | none => none
-                    | some ch =>
-                      match readStrBody f rest3 with
-                      | none => none
-                      | some (s, r) => some (ch :: s, r)
-                  else none  -- lone high surrogate followed by another escape (outside the fragment)
-              | _ => none    -- lone high surrogate (outside the fragment)
-            else
-              match charOfNat? n with
-              | none => none  -- lone low surrogate (outside the fragment)
-              | some ch =>
-                match readStrBody f rest1 with
-                | none => none
-                | some (s, r) => some (ch :: s, r)
-        else
-          let simple : Option Char :=
-            if e = '"' then some '"' else if e = '\\' then some '\\' else if e = '/' then some '/'
-            else if e = 'b' then some (Char.ofNat 8) else if e = 'f' then some (Char.ofNat 12)
-            else if e = 'n' then some '\n' else if e = 'r' then some '\r' else if e = 't' then some '\t'
-            else none
-          match simple with
-          | none => none
-          | some ch =>
-            match readStrBody f rest with
-            | none => none
-            | some (s, r) => some (ch :: s, r)
-    else if c.toNat < 32 then none
-    else
-      match readStrBody f cs with
+        if e = 'u' then uStep rest
+        else match simpleEsc e with
+          | none => .bad
+          | some ch => .char ch rest
+    else if c.toNat < 32 then .bad
+    else .char c cs
+
+/-- `py_scanstring` after the opening quote.  Returns the decoded string and the input after the
+    closing quote. -/
+def readStrBody : Nat → Str → Option (Str × Str)
+  | 0, _ => none
+  | f + 1, s =>
+    match strStep s with
+    | .bad => none
+    | .close r => some ([], r)
+    | .char c r =>
+      match readStrBody f r with
       | none => none
-      | some (s, r) => some (c :: s, r)
+      | some (t, r') => some (c :: t, r')
+
+/-- is `c` the first character of the input -/
+def headIs (c : Char) : Str → Bool
+  | [] => false
+  | d :: _ => d = c
 
 def isDigit (c : Char) : Bool := 48 ≤ c.toNat ∧ c.toNat ≤ 57
 
@@ -206,97 +222,117 @@ def readNat (s : Str) : Option (Nat × Str) :=
   | ([], _) => none
   | (d :: ds, rest) =>
     if d = '0' ∧ ds ≠ [] then none       -- "01": NUMBER_RE matches "0", then "Extra data"/"Expecting , delimiter"
-    else match rest with
-      | '.' :: _ => none
-      | 'e' :: _ => none
-      | 'E' :: _ => none
-      | _ => some (ofDigits (d :: ds), rest)
+    else if headIs '.' rest ∨ headIs 'e' rest ∨ headIs 'E' rest then none
+    else some (ofDigits (d :: ds), rest)
+
+/-- `s.startswith(p)` returning the remainder. -/
+def stripPrefix : Str → Str → Option Str
+  | [], s => some s
+  | _ :: _, [] => none
+  | p :: ps, c :: cs => if p = c then stripPrefix ps cs else none
+
+/-- a string literal at the head of the input (opening quote included). -/
+def readStr (s : Str) : Option (Str × Str) :=
+  match s with
+  | [] => none
+  | c :: cs => if c = '"' then readStrBody (cs.length + 1) cs else none
+
+/-- `"key" ws : ws` — the part of `JSONObject` before a member's value. -/
+def readKey (s : Str) : Option (Str × Str) :=
+  match readStr s with
+  | none => none
+  | some (k, r) =>
+    match skipWs r with
+    | [] => none
+    | c :: r1 => if c = ':' then some (k, skipWs r1) else none
+
+/-- the scalar tokens: `null`, `true`, `false`, integers. -/
+def readAtom (s : Str) : Option (J × Str) :=
+  match stripPrefix ['n', 'u', 'l', 'l'] s with
+  | some r => some (.null, r)
+  | none =>
+  match stripPrefix ['t', 'r', 'u', 'e'] s with
+  | some r => some (.bool true, r)
+  | none =>
+  match stripPrefix ['f', 'a', 'l', 's', 'e'] s with
+  | some r => some (.bool false, r)
+  | none =>
+  match s with
+  | [] => none
+  | c :: cs =>
+    if c = '-' then
+      match readNat cs with
+      | none => none
+      | some (n, r) => some (.num (-(n : Int)), r)
+    else
+      match readNat (c :: cs) with
+      | none => none
+      | some (n, r) => some (.num (n : Int), r)
 
 mutual
 /-- `scan_once` at a position where whitespace has been skipped. -/
 def readValue : Nat → Str → Option (J × Str)
   | 0, _ => none
   | f + 1, s =>
-    match s with
-    | '"' :: cs =>
-      match readStrBody (cs.length + 1) cs with
+    if headIs '"' s then
+      match readStr s with
       | none => none
       | some (t, r) => some (.str t, r)
-    | '[' :: cs =>
-      match skipWs cs with
-      | ']' :: r => some (.arr [], r)
-      | cs' =>
-        match readValue f cs' with
+    else if headIs '[' s then
+      let cs := skipWs s.tail
+      if headIs ']' cs then some (.arr [], cs.tail)
+      else
+        match readValue f cs with
         | none => none
         | some (x, r) =>
           match readElems f r with
           | none => none
           | some (xs, r') => some (.arr (x :: xs), r')
-    | '{' :: cs =>
-      match skipWs cs with
-      | '}' :: r => some (.obj [], r)
-      | '"' :: cs' =>
-        match readStrBody (cs'.length + 1) cs' with
+    else if headIs '{' s then
+      let cs := skipWs s.tail
+      if headIs '}' cs then some (.obj [], cs.tail)
+      else
+        match readKey cs with
         | none => none
-        | some (k, r) =>
-          match skipWs r with
-          | ':' :: r1 =>
-            match readValue f (skipWs r1) with
+        | some (k, r1) =>
+          match readValue f r1 with
+          | none => none
+          | some (v, r2) =>
+            match readMembers f r2 with
             | none => none
-            | some (v, r2) =>
-              match readMembers f r2 with
-              | none => none
-              | some (kvs, r3) => some (.obj ((k, v) :: kvs), r3)
-          | _ => none
-      | _ => none
-    | 'n' :: 'u' :: 'l' :: 'l' :: r => some (.null, r)
-    | 't' :: 'r' :: 'u' :: 'e' :: r => some (.bool true, r)
-    | 'f' :: 'a' :: 'l' :: 's' :: 'e' :: r => some (.bool false, r)
-    | '-' :: cs =>
-      match readNat cs with
-      | none => none
-      | some (n, r) => some (.num (-(n : Int)), r)
-    | cs =>
-      match readNat cs with
-      | none => none
-      | some (n, r) => some (.num (n : Int), r)
+            | some (kvs, r3) => some (.obj ((k, v) :: kvs), r3)
+    else readAtom s
 /-- after an array element: `, value`* then `]` (JSONArray's loop). -/
 def readElems : Nat → Str → Option (List J × Str)
   | 0, _ => none
   | f + 1, s =>
-    match skipWs s with
-    | ']' :: r => some ([], r)
-    | ',' :: r =>
-      match readValue f (skipWs r) with
+    let cs := skipWs s
+    if headIs ']' cs then some ([], cs.tail)
+    else if headIs ',' cs then
+      match readValue f (skipWs cs.tail) with
       | none => none
       | some (x, r1) =>
         match readElems f r1 with
         | none => none
         | some (xs, r2) => some (x :: xs, r2)
-    | _ => none
+    else none
 /-- after an object member: `, "k": value`* then `}` (JSONObject's loop). -/
 def readMembers : Nat → Str → Option (List (Str × J) × Str)
   | 0, _ => none
   | f + 1, s =>
-    match skipWs s with
-    | '}' :: r => some ([], r)
-    | ',' :: r =>
-      match skipWs r with
-      | '"' :: cs' =>
-        match readStrBody (cs'.length + 1) cs' with
+    let cs := skipWs s
+    if headIs '}' cs then some ([], cs.tail)
+    else if headIs ',' cs then
+      match readKey (skipWs cs.tail) with
+      | none => none
+      | some (k, r1) =>
+        match readValue f r1 with
         | none => none
-        | some (k, r0) =>
-          match skipWs r0 with
-          | ':' :: r1 =>
-            match readValue f (skipWs r1) with
-            | none => none
-            | some (v, r2) =>
-              match readMembers f r2 with
-              | none => none
-              | some (kvs, r3) => some ((k, v) :: kvs, r3)
-          | _ => none
-      | _ => none
-    | _ => none
+        | some (v, r2) =>
+          match readMembers f r2 with
+          | none => none
+          | some (kvs, r3) => some ((k, v) :: kvs, r3)
+    else none
 end
 
 /-- `dict(pairs)` as `JSONObject` builds it: a later duplicate key overwrites the value but keeps the
